@@ -33,7 +33,8 @@ REGIMES = ["cold", "sparse", "half", "dense", "rows"]
 
 
 def _inner_entries():
-    return [n for n, e in POOL.items() if e.kind in ("clf", "both") and not e.is_wrapper]
+    # entries whose X is a transformed matrix (precomputed kernel) are built by poolcase only
+    return [n for n, e in POOL.items() if e.kind in ("clf", "both") and not e.is_wrapper and e.x_transform is None]
 
 
 def gen_cases(tier, seed):
